@@ -50,3 +50,8 @@ CASES += [
     dict(id='c14-level-setter-min-tag', prop='C14', file='src/library/log/filter/filters.cpp', expect='R6',
          old="                 ( detail::IFilter::FilterTypes::level, selected_log_level);", new="                 ( detail::IFilter::FilterTypes::minLevel, selected_log_level);"),
 ]
+
+CASES += [
+    dict(id='c14-level-filter-back-in-exists-branch', prop='C14', file='src/library/log/filter/filters.cpp', expect='R6',
+         old="         if (detail::IFilter::isLevelFilter( filter_type))\n            mpLevelFilter = it;", new="         if (detail::IFilter::isLevelFilter( filter_type))\n            mpLevelFilter = mFilters.back();"),
+]
